@@ -12,9 +12,10 @@
            `ts` (what rule 7 / max_ts give), GC safe points stay ≤ `ts` and the range is not destroyed, the value a
            reader at `ts` is served for a key never changes — repeatable snapshot reads at the store, unbounded.
            `served_read_is_snapshot` — the store half of SI with the lock protocol inside: if the store SERVED a read of
-           a key at `ts` (so no data lock at or below `ts` was on it), then after every later command sequence in which
-           transactions that lock the key after the read commit above `ts` (the oracle issues their commit ts after the
-           reader's ts) the version visible at `ts` is the served one.  The lock present at read time needs no
+           a key at `ts` (so every data lock at or below `ts` on it was one the request bypassed, `rs`), then after every later command sequence in which
+           the bypassed transactions and the transactions that lock the key after the read commit above `ts` (the oracle
+           issues their commit ts after the reader's ts; a bypassed one was reported committed above `ts` or had its
+           min_commit_ts pushed above `ts`, below which the store refuses to commit: `commit_below_min_commit_ts_refused`) the version visible at `ts` is the served one.  The lock present at read time needs no
            assumption: its commit can only land above `ts`, or writes no data.
   partial  `rules_imply_SI` (every execution obeying the C04 rules yields an SI history) is NOT assembled as one
            theorem; the judge checks SI on every explored execution instead (siReads / wwCheck / insertCheck / begin-after-ack).
@@ -94,11 +95,11 @@ theorem snapshot_stable_over_all_runs (ts : Nat) (k : Bytes) (s : Store) (cs : L
   runAll_read_stable ts k s cs hs hok hg
 
 /-- snapshot isolation of a served read, for every run (see the header) -/
-theorem served_read_is_snapshot (ts : Nat) (k : Bytes) (s : Store) (cs : List Cmd) (v : Option Write)
+theorem served_read_is_snapshot (ts : Nat) (k : Bytes) (s : Store) (cs : List Cmd) (rs : List Nat) (v : Option Write)
     (hs : SInv s) (hok : OkAll s cs) (hts : ts ≠ maxU64)
-    (hserved : getValue (getEntry s.kv k) k ts true [] = .ok v) (hg : SIGuardAll ts k [] s cs) :
+    (hserved : getValue (getEntry s.kv k) k ts true rs = .ok v) (hg : SIGuardAll ts k rs s cs) :
     firstVisible (getEntry (runAll s cs).kv k).writes ts = v :=
-  Mvcc.served_read_is_snapshot ts k s cs v hs hok hts hserved hg
+  Mvcc.served_read_is_snapshot ts k s cs rs v hs hok hts hserved hg
 
 /-- non-vacuity of `served_read_is_snapshot`: the reader at 25 is served while an OLDER transaction (start ts 15 < 25)
     has not locked the key yet; it prewrites afterwards and commits at 40 > 25 — the guard holds -/
